@@ -27,8 +27,8 @@ func (e *vbNode) GetEntityType() string { return e.kind }
 
 type vbStrategy struct{ kind string }
 
-func (s vbStrategy) NewEntity() *vbNode                    { return &vbNode{kind: s.kind} }
-func (s vbStrategy) FillEntity(*vbNode, *TypedBucket)      {}
+func (s vbStrategy) NewEntity() *vbNode                     { return &vbNode{kind: s.kind} }
+func (s vbStrategy) FillEntity(*vbNode, *TypedBucket)       {}
 func (s vbStrategy) PersistEntity(*vbNode, *PersistContext) {}
 
 type vbStore struct {
